@@ -816,6 +816,18 @@ func (s *vC32State) base58Case() {
 }
 
 // TestVerif_C32: one-time keys and addresses round-trip correctly.
+// vC32Reader serves the keys and masks of the outputs of known transactions (what a wallet's store does).
+type vC32Reader map[crypto.Hash]*common.Transaction
+
+func (m vC32Reader) ReadUTXOKeys(hash crypto.Hash, index uint) (*common.UTXOKeys, error) {
+	tx := m[hash]
+	if tx == nil || int(index) >= len(tx.Outputs) {
+		return nil, nil
+	}
+	o := tx.Outputs[index]
+	return &common.UTXOKeys{Mask: o.Mask, Keys: o.Keys}, nil
+}
+
 func TestVerif_C32(t *testing.T) {
 	r := verifkit.Start(t, "C32", "exploration")
 	r.SetRule("seeded random wallets (seed-derived and edge scalars), masks and output indexes (0..2^64, every varint length boundary): one ghost derivation + view per case, sequentially and from 16 goroutines at once; " +
@@ -1011,6 +1023,87 @@ func TestVerif_C32(t *testing.T) {
 			continue
 		}
 		r.Nontrivial(fmt.Sprintf("txview|%s|%v", wlt.addr.PublicSpendKey.String()[:16], scriptAt))
+	}
+
+	// the recipient spends: outputs built for a wallet at positions 0..5 of one transaction are spent by another
+	// transaction in a scrambled order through the library's signing helpers (per-input maps and one aggregate
+	// signature); the derived one-time private keys must be the ones of the outputs, whatever the input positions
+	for i := 0; i < r.N(300, 6000); i++ {
+		wlt := pool[rng.Intn(len(pool))]
+		a := wlt.addr
+		src := common.NewTransactionV5(common.XINAssetId)
+		nout := 2 + rng.Intn(5)
+		okBuild := s.guard("spend-helpers", "build", nil, func() {
+			for o := 0; o < nout; o++ {
+				src.AddOutputWithType(common.OutputTypeScript, []*common.Address{&a}, common.NewThresholdScript(1), common.NewInteger(1), vC32RandBytes(rng, 64))
+			}
+		})
+		if !okBuild {
+			continue
+		}
+		srcHash := src.AsVersioned().PayloadHash()
+		reader := vC32Reader{srcHash: src}
+		order := rng.Perm(nout)[:1+rng.Intn(nout)]
+		spend := common.NewTransactionV5(common.XINAssetId)
+		for _, oi := range order {
+			spend.AddInput(srcHash, uint(oi))
+		}
+		spend.AddOutputWithType(common.OutputTypeScript, []*common.Address{&a}, common.NewThresholdScript(1), common.NewInteger(uint64(len(order))), vC32RandBytes(rng, 64))
+		msg := spend.AsVersioned().PayloadHash()
+		wit := map[string]any{"private_spend": a.PrivateSpendKey.String(), "private_view": a.PrivateViewKey.String(), "outputs": nout, "spent_in_order": order}
+		r.Eval()
+		r.Count("spends_through_the_signing_helpers", 1)
+		// per-input maps
+		signed := spend.AsVersioned()
+		var serr error
+		if !s.guard("spend-helpers", "SignInput", wit, func() {
+			for pos := range order {
+				if serr = signed.SignInput(reader, pos, []*common.Address{&a}); serr != nil {
+					return
+				}
+			}
+		}) {
+			continue
+		}
+		if serr != nil {
+			r.Violation("C32|common.SignInput|recipient-cannot-sign-its-own-output", "SignInput refuses the recipient's own keys for an output built for it: "+serr.Error(), wit)
+			continue
+		}
+		bad := false
+		for pos, oi := range order {
+			sig := signed.SignaturesMap[pos][0]
+			if sig == nil || !src.Outputs[oi].Keys[0].Verify(msg, *sig) {
+				bad = true
+			}
+		}
+		if bad {
+			r.Violation("C32|common.SignInput|signature-not-by-the-output-key", "a signature made by SignInput does not verify under the one-time key of the spent output", wit)
+			continue
+		}
+		// one aggregate signature
+		agg := spend.AsVersioned()
+		accounts := make([][]*common.Address, len(order))
+		for pos := range order {
+			accounts[pos] = []*common.Address{&a}
+		}
+		var aerr error
+		if !s.guard("spend-helpers", "AggregateSign", wit, func() { aerr = agg.AggregateSign(reader, accounts, vC32RandBytes(rng, 64)) }) {
+			continue
+		}
+		if aerr != nil {
+			r.Violation("C32|common.AggregateSign|recipient-cannot-sign-its-own-output", "AggregateSign refuses the recipient's own keys for outputs built for it: "+aerr.Error(), wit)
+			continue
+		}
+		var pubs []*crypto.Key
+		for _, oi := range order {
+			pubs = append(pubs, src.Outputs[oi].Keys...)
+		}
+		sg := crypto.Signature(agg.AggregatedSignature.Signature)
+		if err := crypto.AggregateVerify(&sg, pubs, agg.AggregatedSignature.Signers, msg); err != nil {
+			r.Violation("C32|common.AggregateSign|signature-not-by-the-output-keys", "the aggregate signature made by AggregateSign does not verify under the one-time keys of the spent outputs: "+err.Error(), wit)
+			continue
+		}
+		r.Nontrivial(fmt.Sprintf("spend|%s|%v", a.PublicSpendKey.String()[:16], order))
 	}
 
 	// R1 hex-printed values, and accepted texts
